@@ -551,7 +551,7 @@ pub fn run_case(case: &Case) -> Outcome {
                 break;
             }
             Err(p) => {
-                std::mem::forget(p);
+                drop(p);
                 let msg = world::last_panic_message().unwrap_or_default();
                 violation = Some(Violation { property: "C19", kind: "unexpected-panic".into(), step: i, detail: msg });
                 break;
